@@ -6,7 +6,7 @@ VERIF = os.path.dirname(os.path.dirname(os.path.abspath(__file__)))
 REPO = os.environ.get('SEGNO_REPO', '/repo')
 if REPO not in sys.path:
     sys.path.insert(0, REPO)
-LEAN = os.path.join(VERIF, 'lean')
+LEAN = os.environ.get('SEGNO_VERIF_LEAN', os.path.join(VERIF, 'lean'))
 JUDGE = os.path.join(LEAN, '.lake', 'build', 'bin', 'judge')
 MODEL = os.path.join(LEAN, '.lake', 'build', 'bin', 'model')
 
